@@ -357,6 +357,107 @@ fn run_set(op: &str, srcs: &[Src]) -> Vec<Vec<u8>> {
     }
 }
 
+// ---------- the other ways of filling an OpBuilder ----------
+// run_raw / run_map / run_set fill the builder with `push`.  The *_alt versions fill it the other public ways:
+//   all streams whole FSTs, k >= 1 : `iter.collect::<OpBuilder>()` (FromIterator, k odd) or `extend(iter)` (Extend, k even)
+//   first stream a whole FST       : `x.op()` (= OpBuilder::new().add(&x)) followed by a chain of `add`
+//   otherwise                      : OpBuilder::new() followed by a chain of `add`
+// The result must be the one of the `push` route, item for item (same stream order => same indexes).
+macro_rules! alt_builder {
+    ($B:ty, $fsts:expr, $srcs:expr, $user:ident, $route:ident) => {{
+        let fsts = $fsts;
+        let srcs: &[Src] = $srcs;
+        if !srcs.is_empty() && srcs.iter().all(|s| s.kind == 'f') {
+            if srcs.len() % 2 == 1 {
+                $route = "from_iterator";
+                fsts.iter().collect::<$B>()
+            } else {
+                $route = "extend";
+                let mut b = <$B>::new();
+                b.extend(fsts.iter());
+                b
+            }
+        } else {
+            let (mut b, skip) = if srcs.first().map(|s| s.kind == 'f').unwrap_or(false) {
+                $route = "op_then_add";
+                (fsts[0].op(), 1)
+            } else {
+                $route = "new_then_add";
+                (<$B>::new(), 0)
+            };
+            for (i, s) in srcs.iter().enumerate().skip(skip) {
+                b = match s.kind {
+                    'f' => {
+                        if i % 2 == 0 {
+                            b.add(&fsts[i])
+                        } else {
+                            b.add(fsts[i].stream())
+                        }
+                    }
+                    'r' => match &s.lohi {
+                        Some((lo, hi)) => b.add(fsts[i].range().ge(lo).le(hi)),
+                        None => b.add(fsts[i].range().gt(b"zz").lt(b"zz")),
+                    },
+                    's' => b.add(fsts[i].search(s.exact.clone())),
+                    _ => $user!(b, i, s),
+                };
+            }
+            b
+        }
+    }};
+}
+
+fn run_raw_alt(op: &str, srcs: &[Src]) -> (Items, &'static str) {
+    let fsts: Vec<raw::Fst<Vec<u8>>> = srcs.iter().map(|s| raw::Fst::from_iter_map(s.big.iter().cloned()).unwrap()).collect();
+    let route: &'static str;
+    macro_rules! user {
+        ($b:expr, $i:expr, $s:expr) => {
+            if $i % 2 == 0 { $b.add(VecRaw { v: $s.want.clone(), i: 0 }) } else { $b.add(IntoVecRaw($s.want.clone())) }
+        };
+    }
+    let b = alt_builder!(raw::OpBuilder, &fsts, srcs, user, route);
+    (run_op!(op, b), route)
+}
+fn run_map_alt(op: &str, srcs: &[Src]) -> (Items, &'static str) {
+    let maps: Vec<Map<Vec<u8>>> = srcs.iter().map(|s| Map::from_iter(s.big.iter().cloned()).unwrap()).collect();
+    let route: &'static str;
+    macro_rules! user {
+        ($b:expr, $i:expr, $s:expr) => {
+            $b.add(VecMap { v: $s.want.clone(), i: 0 })
+        };
+    }
+    let b = alt_builder!(fst::map::OpBuilder, &maps, srcs, user, route);
+    (run_op!(op, b), route)
+}
+fn run_set_alt(op: &str, srcs: &[Src]) -> (Vec<Vec<u8>>, &'static str) {
+    let sets: Vec<Set<Vec<u8>>> = srcs.iter().map(|s| Set::from_iter(s.big.iter().map(|(k, _)| k.clone())).unwrap()).collect();
+    let route: &'static str;
+    macro_rules! user {
+        ($b:expr, $i:expr, $s:expr) => {
+            $b.add(VecSet { v: $s.want.clone(), i: 0 })
+        };
+    }
+    let b = alt_builder!(fst::set::OpBuilder, &sets, srcs, user, route);
+    macro_rules! keys {
+        ($s:expr) => {{
+            let mut s = $s;
+            let mut out = vec![];
+            while let Some(k) = s.next() {
+                out.push(k.to_vec());
+            }
+            out
+        }};
+    }
+    let ks = match op {
+        "union" => keys!(b.union()),
+        "intersection" => keys!(b.intersection()),
+        "symdiff" => keys!(b.symmetric_difference()),
+        "difference" => keys!(b.difference()),
+        _ => panic!("op"),
+    };
+    (ks, route)
+}
+
 fn pred_raw(op: &str, s0: &Kv, s1: &Src) -> bool {
     let f0 = raw::Fst::from_iter_map(s0.iter().cloned()).unwrap();
     let f1 = raw::Fst::from_iter_map(s1.big.iter().cloned()).unwrap();
@@ -402,6 +503,27 @@ fn pred_set(op: &str, s0: &Kv, s1: &Src) -> bool {
         's' => go!(f1.search(s1.exact.clone())),
         _ => go!(VecSet { v: s1.want.clone(), i: 0 }),
     }
+}
+
+/// the alternative routes run on the small cases and on a third of the others (by a hash of the case line)
+fn alt_route_selected(case: &str) -> bool {
+    case.len() <= 120 || case.bytes().fold(0u32, |h, b| h.wrapping_mul(31).wrapping_add(b as u32)) % 3 == 0
+}
+fn count_route(api: &str, route: &'static str) {
+    xcount(match (api, route) {
+        ("raw", "from_iterator") => "ops_raw_from_iterator",
+        ("raw", "extend") => "ops_raw_extend",
+        ("raw", "op_then_add") => "ops_raw_op_then_add",
+        ("raw", _) => "ops_raw_new_then_add",
+        ("map", "from_iterator") => "ops_map_from_iterator",
+        ("map", "extend") => "ops_map_extend",
+        ("map", "op_then_add") => "ops_map_op_then_add",
+        ("map", _) => "ops_map_new_then_add",
+        (_, "from_iterator") => "ops_set_from_iterator",
+        (_, "extend") => "ops_set_extend",
+        (_, "op_then_add") => "ops_set_op_then_add",
+        _ => "ops_set_new_then_add",
+    });
 }
 
 // ---------- generation ----------
@@ -692,9 +814,24 @@ impl Prop for P {
                 if bk != keys {
                     x = format!("set api keys {:?} differ from raw api keys {:?}", keys, bk);
                 }
+                if alt_route_selected(case) {
+                    let (k2, route) = run_set_alt(op, &srcs);
+                    if k2 != keys {
+                        x = format!("set::OpBuilder filled through {} gives keys {:?} but {:?} when filled with push", route, k2, keys);
+                    }
+                    count_route("set", route);
+                }
                 b
             }
         };
+        // the same streams put into the builder with add / op() / collect / extend instead of push
+        if api != "set" && alt_route_selected(case) {
+            let (g2, route) = if api == "raw" { run_raw_alt(op, &srcs) } else { run_map_alt(op, &srcs) };
+            if g2 != got {
+                x = format!("{}::OpBuilder filled through {} gives {} but {} when filled with push", api, route, show_items(&g2), show_items(&got));
+            }
+            count_route(api, route);
+        }
         let b = run_raw(op, &base);
         if tie_canon(&b) != tie_canon(&got) {
             x = format!("baseline {} but {} gives {}", show_items(&tie_canon(&b)), ak, show_items(&tie_canon(&got)));
